@@ -31,6 +31,7 @@ def snapshot(v, memo=None):
         c = HDict(v.name, dict(v.maps))
         c.oid = v.oid
         c.refs = v.refs
+        c.valtype = v.valtype
         memo[i] = c
         return c
     if isinstance(v, HByteArray):
@@ -79,7 +80,7 @@ def fresh_like(ip, v, name, det=False):
     return None
 
 
-def havoc_value(ip, v, name):
+def havoc_value(ip, v, name, elem=None):
     """Value of a local variable after an unknown number of loop iterations."""
     r = fresh_like(ip, v, name)
     if r is not None:
@@ -87,6 +88,10 @@ def havoc_value(ip, v, name):
     if v is None:
         return None
     if isinstance(v, list):
+        if elem == 'val':
+            z = ZList('val')
+            ip.ctx.assume(zint(z.ln) >= 0)
+            return z
         if all(is_bytes(x) for x in v):
             z = ZList('bytes')
             ip.ctx.assume(zint(z.ln) >= 0)
